@@ -4,6 +4,7 @@ package transx
 
 import (
 	"bufio"
+	"crypto/sha256"
 	"encoding/hex"
 	"fmt"
 	"io"
@@ -21,9 +22,13 @@ type proc struct {
 	out *[]string
 }
 
-func (p proc) PrivateSend(d int, b []byte) { *p.out = append(*p.out, fmt.Sprintf("priv %d->%d %x", p.me, d, b)) }
-func (p proc) Broadcast(b []byte)          { *p.out = append(*p.out, fmt.Sprintf("bcast %d %x", p.me, b)) }
-func (p proc) Disqualify(i int, _ string)  { *p.out = append(*p.out, fmt.Sprintf("disq %d by %d", i, p.me)) }
+func (p proc) PrivateSend(d int, b []byte) {
+	*p.out = append(*p.out, fmt.Sprintf("priv %d->%d %x", p.me, d, b))
+}
+func (p proc) Broadcast(b []byte) { *p.out = append(*p.out, fmt.Sprintf("bcast %d %x", p.me, b)) }
+func (p proc) Disqualify(i int, _ string) {
+	*p.out = append(*p.out, fmt.Sprintf("disq %d by %d", i, p.me))
+}
 func (p proc) FlagMisbehavior(i int, _ string) {
 	*p.out = append(*p.out, fmt.Sprintf("flag %d by %d", i, p.me))
 }
@@ -268,6 +273,54 @@ func Write(w io.Writer, seed int64, bls bool) {
 		}
 		for k, l := range log {
 			line("dkg", fmt.Sprintf("%s/msg/%d", proto, k), l)
+		}
+	}
+	// ---- DKG at large sizes (participant indices beyond 127, the maximal size): an honest dealer, three instantiated
+	// participants, every public key share folded into one digest
+	for _, c := range [][4]int{{200, 2, 0, 199}, {254, 3, 253, 130}, {130, 1, 129, 0}} {
+		n, t, dealer, other := c[0], c[1], c[2], c[3]
+		members := []int{dealer, other, n / 2}
+		var log []string
+		nodes := map[int]crypto.DKGState{}
+		for _, i := range members {
+			nodes[i], _ = crypto.NewFeldmanVSSQual(n, t, i, proc{i, &log}, dealer)
+		}
+		for _, i := range members {
+			nodes[i].Start(append([]byte{byte(i)}, data[:40]...))
+		}
+		for k := 0; k < len(log); k++ {
+			var from, to int
+			var hx string
+			if cc, _ := fmt.Sscanf(log[k], "priv %d->%d %s", &from, &to, &hx); cc == 3 {
+				if nd, ok := nodes[to]; ok {
+					b, _ := hex.DecodeString(hx)
+					nd.HandlePrivateMsg(from, b)
+				}
+			} else if cc, _ := fmt.Sscanf(log[k], "bcast %d %s", &from, &hx); cc == 2 {
+				b, _ := hex.DecodeString(hx)
+				for _, j := range members {
+					nodes[j].HandleBroadcastMsg(from, b)
+				}
+			}
+		}
+		for _, i := range members {
+			nodes[i].NextTimeout()
+			nodes[i].NextTimeout()
+			sk, gpk, pks, err := nodes[i].End()
+			tag := fmt.Sprintf("big-%d-%d/end/%d", n, t, i)
+			if err != nil {
+				line("dkg", tag, "error "+fmt.Sprint(crypto.IsDKGFailureError(err)))
+				continue
+			}
+			var all []byte
+			for _, pk := range pks {
+				all = append(all, pk.Encode()...)
+			}
+			d := sha256.Sum256(all)
+			line("dkg", tag+"/sk", sk.Encode())
+			line("dkg", tag+"/group", gpk.Encode())
+			line("dkg", tag+"/pks", d[:])
+			line("dkg", tag+"/pk-last", pks[n-1].Encode())
 		}
 	}
 }
